@@ -42,8 +42,9 @@ VARIABLES l,        \* next line
           void, div,
           ncoll,    \* collections seen so far in this trace (C06)
           fails,    \* set of <<trace, line, property, what>>
-          voidat    \* set of <<trace, line>>: where a trace left the domain
-tvars == <<l, tid, gs, safe, issued, lastobs, twin, lastev, void, div, ncoll, fails, voidat>>
+          voidat,   \* set of <<trace, line>>: where a trace left the domain
+          res       \* the judge's record for the step just taken (see TNext)
+tvars == <<l, tid, gs, safe, issued, lastobs, twin, lastev, void, div, ncoll, fails, voidat, res>>
 
 ToSet(s) == {s[i] : i \in DOMAIN s}
 SeqMap(s) == [a \in {s[i][1] : i \in DOMAIN s} |-> s[CHOOSE i \in DOMAIN s : s[i][1] = a][2]]
@@ -124,24 +125,30 @@ TInit == /\ l = 1 /\ tid = 0
          /\ lastobs = [h \in Handles |-> NoObs]
          /\ twin = [h \in Handles |-> [of |-> -1, kind |-> "none"]]
          /\ lastev = [op |-> "none"]
-         /\ void = FALSE /\ div = FALSE /\ ncoll = 0 /\ fails = {} /\ voidat = {}
+         /\ void = FALSE /\ div = FALSE /\ ncoll = 0 /\ fails = {} /\ voidat = {} /\ res = [tid |-> 0]
 
 F(e, prop, what) == <<e.t, l, prop, what>>
 
+\* Every event handler below is a STATE-level operator returning the record of new values (TLC caches LET
+\* definitions only outside the action level; written as conjunctions of primed assignments the lenses would be
+\* re-evaluated at every reference).  TNext stores that record in res' and copies its fields.
+Cur == [tid |-> tid, gs |-> gs, safe |-> safe, issued |-> issued, lastobs |-> lastobs, twin |-> twin,
+        lastev |-> lastev, void |-> void, div |-> div, ncoll |-> ncoll, fails |-> fails]
+Voided == [Cur EXCEPT !.void = TRUE]
+NewObs(e) == [x \in Handles |-> IF HasObs(e, x) /\ ~Broken(ObsOf(e, x)) THEN ObsOf(e, x) ELSE lastobs[x]]
+
 (* ------------------------- reset / end ----------------------------------- *)
 Reset(e) ==
-  /\ tid' = e.t
-  /\ gs' = [h \in Handles |-> IF h = e.h THEN EmptyG(e.cap) ELSE NullG]
-  /\ safe' = [h \in Handles |-> SafeEmpty]
-  /\ issued' = [h \in Handles |-> {}]
-  /\ lastobs' = [h \in Handles |-> NoObs]
-  /\ twin' = [h \in Handles |-> [of |-> -1, kind |-> "none"]]
-  /\ lastev' = [op |-> "none"]
-  /\ void' = FALSE /\ div' = FALSE /\ ncoll' = 0
-  /\ UNCHANGED fails
+  [tid |-> e.t,
+   gs |-> [h \in Handles |-> IF h = e.h THEN EmptyG(e.cap) ELSE NullG],
+   safe |-> [h \in Handles |-> SafeEmpty],
+   issued |-> [h \in Handles |-> {}],
+   lastobs |-> [h \in Handles |-> NoObs],
+   twin |-> [h \in Handles |-> [of |-> -1, kind |-> "none"]],
+   lastev |-> [op |-> "none"],
+   void |-> FALSE, div |-> FALSE, ncoll |-> 0, fails |-> fails]
 
-End(e) == /\ PrintT(<<"VERDICT", ToJson([fails |-> fails, lines |-> l, voids |-> voidat])>>)
-          /\ UNCHANGED <<tid, gs, safe, issued, lastobs, twin, lastev, void, div, ncoll, fails>>
+End(e) == IF PrintT(<<"VERDICT", ToJson([fails |-> fails, lines |-> l, voids |-> voidat])>>) THEN Cur ELSE Cur
 
 (* ------------------------- the five mutators ------------------------------ *)
 Dom(e, g) ==
@@ -185,9 +192,7 @@ Mutate(e) ==
       o == ObsOf(e, h)
       alive == IF Broken(o) THEN safe[h].present ELSE ToSet(o.alive)
   IN
-  IF void \/ ~indom THEN
-     /\ void' = TRUE
-     /\ UNCHANGED <<tid, gs, safe, issued, lastobs, twin, lastev, div, ncoll, fails>>
+  IF void \/ ~indom THEN Voided
   ELSE
   LET g2 == Post(e, g)
       \* ---- C01 on the observed alive set
@@ -223,15 +228,15 @@ Mutate(e) ==
       c10 == IF OthersSame(e, {h}) THEN {} ELSE {F(e, "C10", "a call changed another handle")}
       mir == IF e.panic THEN {} ELSE MirrorFails(e, o)
   IN
-  /\ fails' = fails \cup c01 \cup c02 \cup c06 \cup c03 \cup c04 \cup c05 \cup c19 \cup lat \cup c10 \cup mir
-  /\ div' = (div \/ ~aliveok)
-  /\ gs' = [gs EXCEPT ![h] = g2]
-  /\ safe' = [safe EXCEPT ![h] = SafeSettle(SafePost(e, @), alive)]
-  /\ issued' = IF e.op = "next_id" /\ ~e.panic THEN [issued EXCEPT ![h] = @ \cup {e.ret}] ELSE issued
-  /\ lastobs' = [x \in Handles |-> IF HasObs(e, x) /\ ~Broken(ObsOf(e, x)) THEN ObsOf(e, x) ELSE lastobs[x]]
-  /\ lastev' = [op |-> e.op, ret |-> e.ret]
-  /\ ncoll' = IF g2.present # g.present /\ ~(g.present \subseteq g2.present) THEN ncoll + 1 ELSE ncoll
-  /\ UNCHANGED <<tid, twin, void>>
+  [Cur EXCEPT
+     !.fails = fails \cup c01 \cup c02 \cup c06 \cup c03 \cup c04 \cup c05 \cup c19 \cup lat \cup c10 \cup mir,
+     !.div = (div \/ ~aliveok),
+     !.gs = [gs EXCEPT ![h] = g2],
+     !.safe = [safe EXCEPT ![h] = SafeSettle(SafePost(e, @), alive)],
+     !.issued = IF e.op = "next_id" /\ ~e.panic THEN [issued EXCEPT ![h] = @ \cup {e.ret}] ELSE issued,
+     !.lastobs = NewObs(e),
+     !.lastev = [op |-> e.op, ret |-> e.ret],
+     !.ncoll = IF ~(g.present \subseteq g2.present) THEN ncoll + 1 ELSE ncoll]
 
 (* ------------------------- clone / save+load ------------------------------ *)
 Twin(e) ==
@@ -241,9 +246,7 @@ Twin(e) ==
       kind == e.op
       p == IF kind = "clone" THEN "C10" ELSE "C08"
   IN
-  IF void \/ IsNull(g) THEN
-     /\ void' = TRUE
-     /\ UNCHANGED <<tid, gs, safe, issued, lastobs, twin, lastev, div, ncoll, fails>>
+  IF void \/ IsNull(g) THEN Voided
   ELSE
   LET ok == e.ret = "ok" /\ HasObs(e, d) /\ ~Broken(ObsOf(e, d))
       od == ObsOf(e, d)
@@ -259,15 +262,15 @@ Twin(e) ==
       c10 == IF OthersSame(e, {d}) THEN {} ELSE {F(e, p, "the call changed another handle (or its source)")}
       g2 == IF kind = "clone" THEN CloneOp(g) ELSE [ReloadOp(g) EXCEPT !.nextv = IF ok THEN od.nextv ELSE 0]
   IN
-  /\ fails' = fails \cup c \cup c01 \cup c10
-  /\ gs' = [gs EXCEPT ![d] = g2]
-  /\ safe' = [safe EXCEPT ![d] = safe[h]]
-  /\ issued' = [issued EXCEPT ![d] = IF kind = "clone" THEN issued[h] ELSE {}]
-  /\ lastobs' = [x \in Handles |-> IF HasObs(e, x) /\ ~Broken(ObsOf(e, x)) THEN ObsOf(e, x) ELSE lastobs[x]]
-  /\ twin' = IF h = d THEN twin ELSE [twin EXCEPT ![d] = [of |-> h, kind |-> kind]]
-  /\ lastev' = [op |-> e.op, ret |-> e.ret]
-  /\ div' = (div \/ ~ok)
-  /\ UNCHANGED <<tid, void, ncoll>>
+  [Cur EXCEPT
+     !.fails = fails \cup c \cup c01 \cup c10,
+     !.gs = [gs EXCEPT ![d] = g2],
+     !.safe = [safe EXCEPT ![d] = safe[h]],
+     !.issued = [issued EXCEPT ![d] = IF kind = "clone" THEN issued[h] ELSE {}],
+     !.lastobs = NewObs(e),
+     !.twin = IF h = d THEN twin ELSE [twin EXCEPT ![d] = [of |-> h, kind |-> kind]],
+     !.lastev = [op |-> e.op, ret |-> e.ret],
+     !.div = (div \/ ~ok)]
 
 (* ------------------------- slice ------------------------------------------ *)
 SliceEv(e) ==
@@ -276,9 +279,7 @@ SliceEv(e) ==
       g == gs[h]
       P(f, t, a) == PredHolds(e.p, f, t, a)
   IN
-  IF void \/ div \/ IsNull(g) \/ ~SliceOk(g, e.v, P) THEN
-     /\ void' = TRUE
-     /\ UNCHANGED <<tid, gs, safe, issued, lastobs, twin, lastev, div, ncoll, fails>>
+  IF void \/ div \/ IsNull(g) \/ ~SliceOk(g, e.v, P) THEN Voided
   ELSE
   LET ok == e.ret = "ok" /\ HasObs(e, d) /\ ~Broken(ObsOf(e, d))
       od == ObsOf(e, d)
@@ -295,15 +296,34 @@ SliceEv(e) ==
              \cup (IF OthersSame(e, {d}) THEN {} ELSE {F(e, "C13", "slice changed its source")})
       xs == IF ok /\ ObsMatches(od, ref) /\ LatentOk(od, ref) THEN {} ELSE {F(e, "X-slice", "slice differs from the exact model")}
   IN
-  /\ fails' = fails \cup c13 \cup xs
-  /\ gs' = [gs EXCEPT ![d] = IF ok /\ ObsMatches(od, ref) THEN ref ELSE NullG]
-  /\ safe' = [safe EXCEPT ![d] = [present |-> ref.present, unread |-> {}, bound |-> ref.present, link |-> {ref.present}]]
-  /\ issued' = [issued EXCEPT ![d] = {}]
-  /\ lastobs' = [x \in Handles |-> IF HasObs(e, x) /\ ~Broken(ObsOf(e, x)) THEN ObsOf(e, x) ELSE lastobs[x]]
-  /\ lastev' = [op |-> e.op, ret |-> e.ret]
-  /\ UNCHANGED <<tid, twin, void, div, ncoll>>
+  [Cur EXCEPT
+     !.fails = fails \cup c13 \cup xs,
+     !.gs = [gs EXCEPT ![d] = IF ok /\ ObsMatches(od, ref) THEN ref ELSE NullG],
+     !.safe = [safe EXCEPT ![d] = [present |-> ref.present, unread |-> {}, bound |-> ref.present, link |-> {ref.present}]],
+     !.issued = [issued EXCEPT ![d] = {}],
+     !.lastobs = NewObs(e),
+     !.lastev = [op |-> e.op, ret |-> e.ret]]
 
 (* ------------------------- merge ------------------------------------------ *)
+\* Where do the vertices of h's tree land in the OBSERVED result?  Follow the labels from `left`.
+RECURSIVE PathMap(_, _, _, _)
+PathMap(hh, o, x, gv) ==
+  {<<x, gv>>} \cup
+  UNION {PathMap(hh, o, hh.edges[x][i][2],
+                 IF gv = -1 THEN -1 ELSE Lookup(ObsKids(o, gv), hh.edges[x][i][1], -1)) : i \in 1..Len(hh.edges[x])}
+\* the model's result with its NEW vertices renamed by rho (the property allows any fresh ids)
+RenG(g2, rho, nextv) ==
+  LET Ren(v) == IF v \in DOMAIN rho THEN rho[v] ELSE v
+      Src(u) == IF \E v \in g2.present : Ren(v) = u THEN CHOOSE v \in g2.present : Ren(v) = u ELSE -1 IN
+  [cap |-> g2.cap,
+   present |-> {Ren(v) : v \in g2.present},
+   edges |-> [u \in IdsOf(g2) |-> IF Src(u) = -1 THEN <<>>
+                ELSE [i \in 1..Len(g2.edges[Src(u)]) |-> <<g2.edges[Src(u)][i][1], Ren(g2.edges[Src(u)][i][2])>>]],
+   val |-> [u \in IdsOf(g2) |-> IF Src(u) = -1 THEN NoVal ELSE g2.val[Src(u)]],
+   st |-> [u \in IdsOf(g2) |-> IF Src(u) = -1 THEN "empty" ELSE g2.st[Src(u)]],
+   groups |-> {{Ren(v) : v \in G} : G \in g2.groups},
+   nextv |-> nextv]
+
 MergeEv(e) ==
   LET h == e.h
       s == e.src
@@ -311,67 +331,80 @@ MergeEv(e) ==
       hh == gs[s]
   IN
   IF void \/ div \/ IsNull(g) \/ IsNull(hh) \/ e.left \notin g.present \/ e.right \notin hh.present
-        \/ ~ReachIsTree(hh, e.right) \/ ~MergeOp(g, hh, e.left, e.right).lim THEN
-     /\ void' = TRUE
-     /\ UNCHANGED <<tid, gs, safe, issued, lastobs, twin, lastev, div, ncoll, fails>>
+        \/ ~ReachIsTree(hh, e.right) \/ ~MergeOp(g, hh, e.left, e.right).lim THEN Voided
   ELSE
   LET r == MergeOp(g, hh, e.left, e.right)
-      g2 == r.g
       o == ObsOf(e, h)
       good == ~e.panic /\ ~Broken(o)
       alive == IF good THEN ToSet(o.alive) ELSE safe[h].present
       both == WholeIsTree(g) /\ r.ok                       \* the domain of C11: two trees
-      img == {r.m[x] : x \in DOMAIN r.m}
-      fresh == g2.present \ g.present
+      pm == IF good THEN PathMap(hh, o, e.right, e.left) ELSE {}
+      total == good /\ \A p \in pm : p[2] # -1
+      rho == IF total THEN [v \in {r.m[p[1]] : p \in pm} |-> (CHOOSE p \in pm : r.m[p[1]] = v)[2]] ELSE <<>>
+      renok == /\ total
+               /\ \A v1, v2 \in DOMAIN rho : v1 # v2 => rho[v1] # rho[v2]              \* distinct h vertices on distinct g vertices
+               /\ \A v \in DOMAIN rho \cap g.present : rho[v] = v                      \* existing vertices keep their place
+               /\ \A v \in DOMAIN rho \ g.present : rho[v] \in IdsOf(g) \ g.present   \* new ones under ids that were not present
+      g2 == IF renok THEN RenG(r.g, rho, o.nextv) ELSE r.g
       c01 == IF safe[h].present \subseteq alive THEN {} ELSE {F(e, "C01", "merge removed a vertex")}
       c12 == IF e.panic THEN {F(e, "C12", "merge panicked")}
              ELSE IF r.ok THEN (IF e.ret = "ok" THEN {} ELSE {F(e, "C12", "complete merge reported an error")})
-             ELSE (IF e.ret = "err" /\ \A v \in r.missed : \E i \in 1..Len(e.missed) : e.missed[i] = v
+             ELSE (IF e.ret = "err" /\ "missed" \in DOMAIN e /\ \A v \in r.missed : \E i \in 1..Len(e.missed) : e.missed[i] = v
                    THEN {} ELSE {F(e, "C12", "incomplete merge reported Ok or did not name the missed vertices")})
       c11 == IF ~both THEN {}
              ELSE (IF good /\ e.ret = "ok" THEN {} ELSE {F(e, "C11", "merge of two trees failed")})
-                  \cup (IF ~good \/ ObsMatches(o, g2) THEN {} ELSE {F(e, "C11", "merged graph differs: paths, data or surplus vertices")})
-                  \cup (IF ~good \/ LatentOk(o, g2) THEN {} ELSE {F(e, "X-latent", "merge: unread set or group partition differs")})
+                  \cup (IF ~good \/ renok THEN {} ELSE {F(e, "C11", "a path of the right tree is missing, two right vertices share a left vertex, or a new vertex took a present id")})
+                  \cup (IF ~good \/ ~renok \/ ObsMatches(o, g2) THEN {} ELSE {F(e, "C11", "merged graph differs: data, surplus/lost vertices or edges")})
+                  \cup (IF ~good \/ ~renok \/ ~ObsMatches(o, g2) \/ LatentOk(o, g2) THEN {} ELSE {F(e, "X-latent", "merge: unread set or group partition differs")})
                   \cup (IF HasObs(e, s) /\ lastobs[s].h = s /\ Complete(ObsOf(e, s)) # Complete(lastobs[s])
                         THEN {F(e, "C11", "merge changed the right graph")} ELSE {})
+      xm == IF ~both \/ ~good \/ ObsMatches(o, r.g) THEN {} ELSE {F(e, "X-id", "merge chose other ids than the model")}
       c05 == IF ~good \/ (ToSet(o.alive) \ g.present) \cap (g.present \cup issued[h]) = {} THEN {}
              ELSE {F(e, "C05", "merge created a vertex under a present or previously issued id")}
       aliveok == good /\ AliveOk(o, g2)
+      img == {r.m[x] : x \in DOMAIN r.m}
   IN
-  /\ fails' = fails \cup c01 \cup c12 \cup c11 \cup c05
-  /\ gs' = [gs EXCEPT ![h] = g2]
-  /\ safe' = [safe EXCEPT ![h] =
-        SafeSettle([@ EXCEPT !.unread = @ \cup {r.m[x] : x \in {y \in DOMAIN r.m : hh.st[y] # "empty"}},
-                             !.bound = @ \cup img,
-                             !.link = {D \in @ : D \cap img = {}} \cup {UNION {ClassOf(safe[h], v) : v \in img} \cup img}], alive)]
-  /\ issued' = [issued EXCEPT ![h] = @ \cup (alive \ g.present)]
-  /\ lastobs' = [x \in Handles |-> IF HasObs(e, x) /\ ~Broken(ObsOf(e, x)) THEN ObsOf(e, x) ELSE lastobs[x]]
-  /\ lastev' = [op |-> e.op, ret |-> e.ret]
-  /\ div' = (div \/ ~aliveok)
-  /\ UNCHANGED <<tid, twin, void, ncoll>>
+  [Cur EXCEPT
+     !.fails = fails \cup c01 \cup c12 \cup c11 \cup c05 \cup xm,
+     !.gs = [gs EXCEPT ![h] = g2],
+     !.safe = [safe EXCEPT ![h] =
+        LET imgobs == {p[2] : p \in pm} \ {-1}
+            C == imgobs \cup UNION {ClassOf(safe[h], v) : v \in imgobs} IN
+        SafeSettle([@ EXCEPT !.unread = @ \cup {p[2] : p \in {q \in pm : q[2] # -1 /\ hh.st[q[1]] # "empty"}},
+                             !.bound = @ \cup (IF Cardinality(imgobs) > 1 THEN imgobs ELSE {}),
+                             !.link = {D \in @ : D \cap C = {}} \cup {C}], alive)],
+     !.issued = [issued EXCEPT ![h] = @ \cup (alive \ g.present)],
+     !.lastobs = NewObs(e),
+     !.lastev = [op |-> e.op, ret |-> e.ret],
+     !.div = (div \/ ~aliveok \/ (both /\ ~renok))]
 
 (* ------------------------- new (a second, empty graph) --------------------- *)
 NewEv(e) ==
-  /\ gs' = [gs EXCEPT ![e.h] = EmptyG(e.cap)]
-  /\ safe' = [safe EXCEPT ![e.h] = SafeEmpty]
-  /\ issued' = [issued EXCEPT ![e.h] = {}]
-  /\ lastobs' = [x \in Handles |-> IF HasObs(e, x) /\ ~Broken(ObsOf(e, x)) THEN ObsOf(e, x) ELSE lastobs[x]]
-  /\ twin' = [twin EXCEPT ![e.h] = [of |-> -1, kind |-> "none"]]
-  /\ lastev' = [op |-> e.op, ret |-> e.ret]
-  /\ UNCHANGED <<tid, void, div, ncoll, fails>>
+  [Cur EXCEPT
+     !.gs = [gs EXCEPT ![e.h] = EmptyG(e.cap)],
+     !.safe = [safe EXCEPT ![e.h] = SafeEmpty],
+     !.issued = [issued EXCEPT ![e.h] = {}],
+     !.lastobs = NewObs(e),
+     !.twin = [twin EXCEPT ![e.h] = [of |-> -1, kind |-> "none"]],
+     !.lastev = [op |-> e.op, ret |-> e.ret]]
 
 (* ------------------------- next -------------------------------------------- *)
+Judge(e) ==
+  CASE e.op = "reset" -> Reset(e)
+    [] e.op = "end" -> End(e)
+    [] e.op \in {"add", "bind", "put", "data", "next_id"} -> Mutate(e)
+    [] e.op \in {"clone", "reload"} -> Twin(e)
+    [] e.op = "slice" -> SliceEv(e)
+    [] e.op = "merge" -> MergeEv(e)
+    [] e.op = "new" -> NewEv(e)
+
 TNext ==
   /\ l <= Len(Rec)
   /\ l' = l + 1
-  /\ LET e == Rec[l] IN
-     CASE e.op = "reset" -> Reset(e)
-       [] e.op = "end" -> End(e)
-       [] e.op \in {"add", "bind", "put", "data", "next_id"} -> Mutate(e)
-       [] e.op \in {"clone", "reload"} -> Twin(e)
-       [] e.op = "slice" -> SliceEv(e)
-       [] e.op = "merge" -> MergeEv(e)
-       [] e.op = "new" -> NewEv(e)
+  /\ res' = Judge(Rec[l])
+  /\ tid' = res'.tid /\ gs' = res'.gs /\ safe' = res'.safe /\ issued' = res'.issued /\ lastobs' = res'.lastobs
+  /\ twin' = res'.twin /\ lastev' = res'.lastev /\ void' = res'.void /\ div' = res'.div /\ ncoll' = res'.ncoll
+  /\ fails' = res'.fails
   /\ voidat' = IF ~void /\ void' THEN voidat \cup {<<tid, l>>} ELSE voidat
 
 TSpec == TInit /\ [][TNext]_tvars
